@@ -24,6 +24,17 @@ class MethodMixin:
         if any(isinstance(a, Opaque) or getattr(a, "unknown", False) for a in args) and isinstance(recv, Cell) \
                 and name not in ("append", "extend", "add", "update", "insert", "remove", "discard", "get", "pop", "setdefault"):
             return Opaque(f"{recv.kind}.{name}()", fresh=True)
+        if type(recv).__name__ == "DictView":
+            # a.__dict__.update(b.__dict__): every attribute of b is (shallowly) copied to a.  Sound for the class model only if
+            # the model lists every attribute the contract speaks about (unlisted attributes are not visible to any clause)
+            if name == "update" and len(args) == 1 and type(args[0]).__name__ == "DictView" and not kwargs:
+                src, dst = args[0].obj, recv.obj
+                for f in C.all_fields(src.ty.args[0].name):
+                    if C.class_field(dst.ty.args[0].name, f) is None:
+                        continue
+                    self.field_write(dst, f, self.field_read(src, f))
+                return None
+            raise Unsupported(f"__dict__.{name}")
         if is_str(recv):
             return self.str_method(recv, name, args, kwargs)
         if isinstance(recv, Cell):
